@@ -162,6 +162,90 @@ func C26(c *Ctx) {
 		c.Decide(self, r2, key(fn, "skip-self-only"), fn.Pos(), 1, "only the region's own entry is exempt", "findOverlapLocked no longer exempts exactly the region's own id")
 	}
 
+	const r2b = "K2.well-formed-range-precondition"
+	c.Rule(r2b, "rangesOverlap and the index lookup assume start < end for bounded regions; Cluster.UpsertRegionHeartbeat establishes it: every store into Cluster.regions is preceded by a rejecting test `len(EndKey) > 0 && Compare(StartKey, EndKey) >= 0` (or the mirrored form) on the incoming meta")
+	if fn := c.Fn("pd/core", "Cluster.UpsertRegionHeartbeat"); fn != nil {
+		guard := false
+		for _, b := range fn.Blocks {
+			ifi := ifOf(b)
+			if ifi == nil {
+				continue
+			}
+			bo, ok := ifi.Cond.(*ssa.BinOp)
+			if !ok {
+				continue
+			}
+			op := bo.Op
+			call, isCall := bo.X.(*ssa.Call)
+			if !isCall {
+				call, isCall = bo.Y.(*ssa.Call)
+				op = flipOp(op)
+			}
+			if !isCall || !Named("bytes.Compare")(call.Common()) {
+				continue
+			}
+			a, bb := fieldNameOf(call.Call.Args[0]), fieldNameOf(call.Call.Args[1])
+			rejectsEdge := -1
+			switch {
+			case a == "StartKey" && bb == "EndKey" && op == token.GEQ:
+				rejectsEdge = 0
+			case a == "StartKey" && bb == "EndKey" && op == token.LSS:
+				rejectsEdge = 1
+			case a == "EndKey" && bb == "StartKey" && op == token.LEQ:
+				rejectsEdge = 0
+			case a == "EndKey" && bb == "StartKey" && op == token.GTR:
+				rejectsEdge = 1
+			}
+			if rejectsEdge < 0 {
+				continue
+			}
+			// the rejecting edge returns a non-nil error and no region store is reachable from it
+			stores := fieldMapUpdates(fn, "pd/core.Cluster", "regions")
+			bad := false
+			for _, st := range stores {
+				if blockReaches(b.Succs[rejectsEdge], st.Block()) {
+					bad = true
+				}
+			}
+			if !bad && onlyErrorReturns(fn, b.Succs[rejectsEdge]) {
+				guard = true
+			}
+		}
+		c.Decide(guard, r2b, key(fn, "rejects:start>=end"), fn.Pos(), 2, "a bounded region with start >= end is refused before it can be stored", "UpsertRegionHeartbeat stores a region without checking start < end: an empty or inverted range passes the overlap test against every neighbour and then shadows the real owner in GetRegionByKey (keys of a known region become unroutable)")
+	}
+
+	const r2c = "K1.catalog-change-and-persistence-are-one-step"
+	c.Rule(r2c, "pd/server Service.RegionHeartbeat and Service.RemoveRegion change the in-memory catalog and the persisted catalog as one step: a mutex is held across the cluster call and the storage call, and a failed storage call is compensated (the cluster change is undone) or the storage call comes first; otherwise a failed or delayed save leaves the live catalog and the one reloaded after a restart different")
+	for _, spec := range [][3]string{{"Service.RegionHeartbeat", "pd/core.(*Cluster).UpsertRegionHeartbeat", "SaveRegion"}, {"Service.RemoveRegion", "pd/core.(*Cluster).RemoveRegion", "DeleteRegion"}} {
+		fn := c.Fn("pd/server", spec[0])
+		if fn == nil {
+			continue
+		}
+		mem := Calls(fn, false, Named(spec[1]))
+		per := Calls(fn, false, func(cc *ssa.CallCommon) bool { return cc.IsInvoke() && cc.Method.Name() == spec[2] })
+		if len(mem) == 0 || len(per) == 0 {
+			c.Fail(r2c, key(fn, "has:catalog+storage-calls"), fn.Pos(), 1, "cannot find the catalog call and the storage call in %s", spec[0])
+			continue
+		}
+		ls := ComputeLockSets(fn)
+		locked := len(ls.HeldAt(mem[0].(ssa.Instruction))) > 0 && len(ls.HeldAt(per[0].(ssa.Instruction))) > 0
+		persistFirst := Dominates(per[0].(ssa.Instruction), mem[0].(ssa.Instruction))
+		compensated := false
+		if ev := ErrResult(per[0]); ev != nil {
+			for _, e := range NilEdges(fn, FlowSet(ev)) {
+				for _, m2 := range Calls(fn, false, func(cc *ssa.CallCommon) bool {
+					o := CalleeObj(cc)
+					return o != nil && strings.Contains(ObjName(o), "pd/core.(*Cluster).")
+				}) {
+					if EdgeDominates(e.NonNil[0], e.NonNil[1], m2.Block()) {
+						compensated = true
+					}
+				}
+			}
+		}
+		c.Decide(locked && (persistFirst || compensated), r2c, key(fn, "catalog+storage#one-step"), fn.Pos(), 3, "catalog change and persistence are serialised and a failed save is compensated", fmt.Sprintf("%s changes the in-memory catalog and persists afterwards with no lock across both (lock held: %v) and no compensation on a storage error (compensated: %v, persisted first: %v): a failed or reordered save makes the catalog reloaded after a restart differ from the acknowledged one, up to overlapping regions that PD refuses to start from", spec[0], locked, compensated, persistFirst))
+	}
+
 	const r3 = "K1.index-rebuilt-after-mutation"
 	c.Rule(r3, "every store to / delete from Cluster.regions is followed, before the lock is released, by rebuildRegionIndexLocked; GetRegionByKey answers from the index with the half-open test (key < start ⇒ miss, key >= end ⇒ miss)")
 	for _, name := range []string{"Cluster.UpsertRegionHeartbeat", "Cluster.RemoveRegion"} {
@@ -517,4 +601,15 @@ func startFlowsFromResolve(fn *ssa.Function, ctor ssa.CallInstruction, rs []ssa.
 		}
 	}
 	return false
+}
+
+// fieldMapUpdates: MapUpdate instructions in fn whose map is a load of owner.field.
+func fieldMapUpdates(fn *ssa.Function, owner, field string) []ssa.Instruction {
+	var out []ssa.Instruction
+	AllInstrs(fn, false, func(in ssa.Instruction) {
+		if mu, ok := in.(*ssa.MapUpdate); ok && isFieldLoad(mu.Map, owner, field) {
+			out = append(out, in)
+		}
+	})
+	return out
 }
